@@ -2,7 +2,7 @@
 EXTENDS Cli
 AllCids == {"valid", "rejected", "missing"}
 AllKinds == {"accepted", "fieldRejected", "dupRejected", "shares", "lateDamage", "missing", "directory"}
-AllUntils == {"absent", "all", "0", "k2", "k9"}
+AllUntils == {"absent", "all", "0", "k2", "k9", "huge"}
 OkArgs == {"ok"}
 BadArgs == {"none", "unknownOption", "untilTooSmall", "untilNotNumber", "badLogLevel", "untilWithoutValue", "pluginsWithoutValue", "optionBetweenCidAndData"}
 Plain == {"plain"}
